@@ -21,7 +21,7 @@ UNIT_SEARCHES = {
 
 
 def build(repo, build_dir, features=''):
-    d = os.path.join(build_dir, 'replay')
+    d = os.path.join(build_dir, 'replay' + ('-simd' if features else ''))
     os.makedirs(d, exist_ok=True)
     t = open(os.path.join(ROOT, 'replay', 'Cargo.toml.in')).read().replace('@VERIF@', ROOT).replace('@REPO@', repo)
     if features:
@@ -30,11 +30,11 @@ def build(repo, build_dir, features=''):
         f.write(t)
     lock = os.path.join(repo, 'Cargo.lock')
     env = dict(os.environ, CARGO_NET_OFFLINE='true', EJMAHLER_RUSTFFT_VERIF_DIR=ROOT,
-               RUSTFLAGS='--cfg ejmahler_rustfft_verif -Awarnings', CARGO_TARGET_DIR=os.path.join(build_dir, 'replay-target'))
+               RUSTFLAGS='--cfg ejmahler_rustfft_verif -Awarnings', CARGO_TARGET_DIR=os.path.join(build_dir, 'replay-simd-target' if features else 'replay-target'))
     p = subprocess.run(['cargo', 'build', '--offline', '--quiet'], cwd=d, env=env, capture_output=True, text=True, timeout=900)
     if p.returncode != 0:
         return None, p.stderr[-3000:]
-    return os.path.join(build_dir, 'replay-target', 'debug', 'replay'), ''
+    return os.path.join(build_dir, 'replay-simd-target' if features else 'replay-target', 'debug', 'replay'), ''
 
 
 _MEMO = {}
